@@ -317,7 +317,8 @@ def run(tier):
         for name, ids in CONFIGS.items():
             b = bound_pair if len(ids) == 2 else bound_multi
             jobs.append((wd, "mt.asan.exe", ["inter", name, str(b), str(limit)], limit + 60))
-            jobs.append((wd, "mt.asan.exe", ["threads", name, str(b), str(limit)], limit + 60))
+            bt = b if (quick or len(ids) == 2) else b - 1     # the threaded explorer is ~5x slower per execution: one bound less on the larger configurations
+            jobs.append((wd, "mt.asan.exe", ["threads", name, str(bt), str(limit)], limit + 60))
         jobs.append((wd, "mt.tsan.exe", ["free", "20" if quick else "200"], 600))
         tot = dict(executions=0, choice_points=0, distinct=0)
         per = {}
